@@ -4,7 +4,8 @@
 //
 //   h <mode> <org> <alloc> <fa> <fc> <mc> <dg> | <op> | <op> | ...
 //     mode   dbg | rel            (rel: this binary was compiled with -DNDEBUG; validated against the build)
-//     org    rgb8 | rgb8p | gray16 | rgb565 | gray1 | elem
+//     org    rgb8 | rgb8p | gray16 | rgb565 | gray1 | elem | elemp    (elem: image<E,false>, E a counting non-pixel element;
+//            elemp: image<pixel<E,rgb_layout_t>,true>: planar image of a counting channel type)
 //     alloc  se | sf00 | sf01 | sf10 | sf11 | pmr     (sfMS: stateful, M = propagate_on_container_move_assignment,
 //                                                      S = propagate_on_container_swap)
 //     fa     k >= 1: the k-th allocation of the history throws std::bad_alloc; 0 = none
@@ -194,34 +195,44 @@ struct E {
 struct Quiet { Quiet() { R.quiet = true; } ~Quiet() { R.quiet = false; } };
 
 // ---------------------------------------------------------------- organisations
-struct OrgRgb8   { using image_t = gil::image<gil::rgb8_pixel_t, false, AllocT>; static constexpr bool elem = false; static constexpr long vmask = 255;
+struct OrgRgb8   { using image_t = gil::image<gil::rgb8_pixel_t, false, AllocT>; static constexpr bool elem = false; static constexpr bool nonpixel = false; static constexpr long vmask = 255;
     static auto mk(int v) { return gil::rgb8_pixel_t(v & 255, (v + 1) & 255, (v + 2) & 255); }
     template <typename P> static long val(P const& p) { return (long)gil::at_c<0>(p); } };
-struct OrgRgb8p  { using image_t = gil::image<gil::rgb8_pixel_t, true, AllocT>; static constexpr bool elem = false; static constexpr long vmask = 255;
+struct OrgRgb8p  { using image_t = gil::image<gil::rgb8_pixel_t, true, AllocT>; static constexpr bool elem = false; static constexpr bool nonpixel = false; static constexpr long vmask = 255;
     static auto mk(int v) { return gil::rgb8_pixel_t(v & 255, (v + 1) & 255, (v + 2) & 255); }
     template <typename P> static long val(P const& p) { return (long)gil::at_c<0>(p); } };
-struct OrgGray16 { using image_t = gil::image<gil::gray16_pixel_t, false, AllocT>; static constexpr bool elem = false; static constexpr long vmask = 65535;
+struct OrgGray16 { using image_t = gil::image<gil::gray16_pixel_t, false, AllocT>; static constexpr bool elem = false; static constexpr bool nonpixel = false; static constexpr long vmask = 65535;
     static auto mk(int v) { return gil::gray16_pixel_t(v & 65535); }
     template <typename P> static long val(P const& p) { return (long)gil::at_c<0>(p); } };
-struct OrgRgb565 { using image_t = gil::packed_image3_type<uint16_t, 5, 6, 5, gil::rgb_layout_t, AllocT>::type; static constexpr bool elem = false; static constexpr long vmask = 31;
+struct OrgRgb565 { using image_t = gil::packed_image3_type<uint16_t, 5, 6, 5, gil::rgb_layout_t, AllocT>::type; static constexpr bool elem = false; static constexpr bool nonpixel = false; static constexpr long vmask = 31;
     static auto mk(int v) { image_t::value_type p; gil::at_c<0>(p) = v & 31; gil::at_c<1>(p) = (v + 1) & 63; gil::at_c<2>(p) = (v + 2) & 31; return p; }
     template <typename P> static long val(P const& p) { return (long)gil::at_c<0>(p); } };
-struct OrgGray1  { using image_t = gil::bit_aligned_image1_type<1, gil::gray_layout_t, AllocT>::type; static constexpr bool elem = false; static constexpr long vmask = 1;
+struct OrgGray1  { using image_t = gil::bit_aligned_image1_type<1, gil::gray_layout_t, AllocT>::type; static constexpr bool elem = false; static constexpr bool nonpixel = false; static constexpr long vmask = 1;
     static auto mk(int v) { image_t::value_type p; gil::at_c<0>(p) = v & 1; return p; }
     template <typename P> static long val(P const& p) { return (long)gil::at_c<0>(p); }
     // image<...>::image(w, h, const Pixel&) of a bit-aligned image takes a bit_aligned_pixel_reference: build one over a local byte
     template <typename F> static void with_px(int v, F f) { unsigned char byte = (unsigned char)(v & 1); image_t::view_t::reference r(&byte, 0); f(r); } };
 #ifdef C10_NO_ELEM   // image<E> with a non-trivial element does not compile on this tree (compile probe): histories over it report err:no-compile
-struct OrgElem   { using image_t = gil::image<int, false, AllocT>; static constexpr bool elem = true; static constexpr long vmask = 0x7fffffff;
+struct OrgElem   { using image_t = gil::image<int, false, AllocT>; static constexpr bool elem = true; static constexpr bool nonpixel = true; static constexpr long vmask = 0x7fffffff;
     static int mk(int v) { return v; }    // elements are built inside WithPx (Quiet scope)
     static long val(int const& e) { return e; } };
 
 #else
-struct OrgElem   { using image_t = gil::image<E, false, AllocT>; static constexpr bool elem = true; static constexpr long vmask = 0x7fffffff;
+struct OrgElem   { using image_t = gil::image<E, false, AllocT>; static constexpr bool elem = true; static constexpr bool nonpixel = true; static constexpr long vmask = 0x7fffffff;
     static int mk(int v) { return v; }    // elements are built inside WithPx (Quiet scope)
     static long val(E const& e) { return e.v; } };
 
 #endif
+#ifndef C10_NO_ELEM
+// planar image of a NON-TRIVIAL channel type: every channel of every pixel is a counted element object (exercises the planar
+// roll-back paths of default_construct_aux / uninitialized_fill_aux / uninitialized_copy_aux / destruct_aux)
+namespace boost { namespace gil { template <> struct channel_traits<E> : detail::channel_traits_impl<E, false> {}; } }
+struct OrgElemP { using pixel_t = gil::pixel<E, gil::rgb_layout_t>; using image_t = gil::image<pixel_t, true, AllocT>;
+    static constexpr bool elem = true; static constexpr bool nonpixel = false; static constexpr long vmask = 0x7fffffff;
+    static int mk(int v) { return v; }
+    template <typename P> static long val(P const& p) { return (long)gil::at_c<0>(p).v; } };
+#endif
+
 // row start/end byte addresses (all planes), used for `ra` and `fit`
 template <typename It> static void row_span(It b, It e, std::vector<std::pair<const unsigned char*, const unsigned char*>>& out, long& badbit) {
     if constexpr (gil::is_planar<It>::value) {
@@ -263,6 +274,12 @@ template <typename O, typename = void> struct WithPx { template <typename F> sta
 #ifndef C10_NO_ELEM
 template <> struct WithPx<OrgElem, void> { template <typename F> static void call(int v, F f) {
     E* p; { Quiet q; p = new E(v); }
+    try { f(*p); } catch (...) { Quiet q; delete p; throw; }
+    { Quiet q; delete p; } } };
+#endif
+#ifndef C10_NO_ELEM
+template <> struct WithPx<OrgElemP, void> { template <typename F> static void call(int v, F f) {
+    OrgElemP::pixel_t* p; { Quiet q; p = new OrgElemP::pixel_t(E(v), E(v + 1), E(v + 2)); }
     try { f(*p); } catch (...) { Quiet q; delete p; throw; }
     { Quiet q; delete p; } } };
 #endif
@@ -317,7 +334,7 @@ template <typename O> struct History {
         }
         else if (o == "fromview") {
             auto& a = SL(w[1]); auto& b = SL(w[4]); if (a || !b) throw Skip();
-            if constexpr (OO::elem) throw Skip(); else a.emplace(gil::view(*b), (size_t)I_(3), mk_alloc((int)I_(2)));
+            if constexpr (OO::nonpixel) throw Skip(); else a.emplace(gil::view(*b), (size_t)I_(3), mk_alloc((int)I_(2)));
         }
         else if (o == "copy") { auto& a = SL(w[1]); auto& b = SL(w[2]); if (a || !b) throw Skip(); a.emplace(*b); }
         else if (o == "move") { auto& a = SL(w[1]); auto& b = SL(w[2]); if (a || !b) throw Skip(); a.emplace(std::move(*b)); }
@@ -325,7 +342,7 @@ template <typename O> struct History {
         else if (o == "massign") {
             auto& a = SL(w[1]); auto& b = SL(w[2]); if (!a || !b) throw Skip();
 #ifndef C10_ELEM_MASSIGN_COMPILES
-            if constexpr (OO::elem && !kMovePropagates) { throw std::string("nocompile"); } else
+            if constexpr (OO::nonpixel && !kMovePropagates) { throw std::string("nocompile"); } else
 #endif
             *a = std::move(*b);
         }
@@ -420,9 +437,10 @@ static std::string handle(std::string const& line) {
     else if (hd[2] == "rgb565") { History<OrgRgb565> H; r = H.run(ops); }
     else if (hd[2] == "gray1") { History<OrgGray1> H; r = H.run(ops); }
 #ifdef C10_NO_ELEM
-    else if (hd[2] == "elem") r = "err:no-compile";
+    else if (hd[2] == "elem" || hd[2] == "elemp") r = "err:no-compile";
 #else
     else if (hd[2] == "elem") { History<OrgElem> H; r = H.run(ops); }
+    else if (hd[2] == "elemp") { History<OrgElemP> H; r = H.run(ops); }
 #endif
     else r = "bad-op:org";
     R.reset();
